@@ -980,7 +980,8 @@ def pinnedKeys : List (Str × List Str) := [
   (c!"derive.SynOptional", [c!"plain", c!"Renamed-Key", c!"number", c!"flag", c!"Yes-No", c!"Words", c!"Priority"]),
   (c!"derive.SynMixed", [c!"Name", c!"name_lower", c!"Size", c!"Multi-Arch", c!"Words", c!"tail"]),
   (c!"derive.SynOne", [c!"Only"]),
-  (c!"derive.SynEmpty", [])]
+  (c!"derive.SynEmpty", []),
+  (c!"derive.SynFront", [c!"r#type", c!"r#match", c!"path_opt", c!"abs_opt", c!"Second", c!"Twice-B"])]
 -- PINNED-KEYS-END
 /-- the key literals (explicit `field = "…"` or the identifier) of every struct, pinned: a changed
     or added key in /repo has to be acknowledged here -/
